@@ -3,6 +3,7 @@ from __future__ import annotations
 
 import ast
 import dataclasses
+import os
 import time
 import traceback
 from typing import Any, Callable
@@ -86,7 +87,7 @@ class Verifier:
         self.repo = repo
         self.reg = registry
         self.spec_factory = spec_factory
-        self.timeout_ms = timeout_ms
+        self.timeout_ms = int(os.environ.get("PYVC_TIMEOUT_MS", timeout_ms))
         self.model_extractors: dict[str, Callable] = {}
 
     def new_exec(self) -> Exec:
